@@ -175,7 +175,9 @@ class TaskManager:
             assert isinstance(user_task, (Task, Future))
 
             def done_cb(future: Future) -> None:
-                self._pending_tasks.pop(name, None)
+                # Only forget this task: the name may have been registered again in the meantime.
+                if self._pending_tasks.get(name) is future:
+                    self._pending_tasks.pop(name, None)
                 try:
                     future.result()
                 except CancelledError:
